@@ -148,7 +148,7 @@ func c03Exec(env *c03Env, op map[string]interface{}) (line string) {
 			if kv.Version != "1" {
 				names = append(names, "VERSION="+kv.Version)
 			}
-			names = append(names, hex.EncodeToString([]byte(kv.KeyName)))
+			names = append(names, "n:"+hex.EncodeToString([]byte(kv.KeyName)))
 		}
 		sort.Strings(names)
 		return "listnames [" + strings.Join(names, ",") + "]"
